@@ -413,4 +413,102 @@ theorem writeOK_of {st st' : Store} {p : List Sec} {b : List Nat} {n : Nat}
         simp only [getByte, hst, hbs', hmem.1, hmem.2] at this
         cases this; rfl
 
+/-! ### the pieces built by `newPieces` meet the hypotheses of `read_write_roundtrip` -/
+
+theorem nodup_bytesOf (i off : Nat) : ∀ len, (bytesOf i off len).Nodup
+  | 0 => by simp [bytesOf]
+  | len + 1 => by
+    rw [bytesOf_add, List.nodup_append]
+    refine ⟨nodup_bytesOf i off len, by simp [bytesOf], ?_⟩
+    intro a ha b hb hab
+    subst hab
+    obtain ⟨f, o⟩ := a
+    have h1 := (mem_bytesOf _ _ _ _ _).mp ha
+    have h2 := (mem_bytesOf _ _ _ _ _).mp hb
+    omega
+
+theorem le_of_mem_fileStreamFrom : ∀ (fs : List FileEnt) (i : Nat) (x : Nat × Nat), x ∈ fileStreamFrom i fs → i ≤ x.1
+  | [], _, _, h => by simp [fileStreamFrom] at h
+  | f :: r, i, (a, b), h => by
+    simp only [fileStreamFrom, List.mem_append] at h
+    rcases h with h | h
+    · have := (mem_bytesOf _ _ _ _ _).mp h; simp only; omega
+    · have := le_of_mem_fileStreamFrom r (i + 1) _ h; simp only at this ⊢; omega
+
+theorem nodup_fileStreamFrom : ∀ (fs : List FileEnt) (i : Nat), (fileStreamFrom i fs).Nodup
+  | [], _ => by simp [fileStreamFrom]
+  | f :: r, i => by
+    simp only [fileStreamFrom]
+    rw [List.nodup_append]
+    refine ⟨nodup_bytesOf _ _ _, nodup_fileStreamFrom r (i + 1), ?_⟩
+    intro a ha b hb hab
+    subst hab
+    obtain ⟨x, y⟩ := a
+    have h1 := (mem_bytesOf _ _ _ _ _).mp ha
+    have h2 := le_of_mem_fileStreamFrom r (i + 1) _ hb
+    simp only at h2
+    omega
+
+theorem secStream_filter_sublist (q : Sec → Bool) : ∀ (p : List Sec), (secStream (p.filter q)).Sublist (secStream p)
+  | [] => List.Sublist.refl _
+  | s :: r => by
+    have ih := secStream_filter_sublist q r
+    simp only [List.filter_cons]
+    split
+    · simp only [secStream, List.flatMap_cons]
+      exact List.Sublist.append (List.Sublist.refl _) ih
+    · simp only [secStream, List.flatMap_cons]
+      exact List.Sublist.trans ih (List.sublist_append_right _ _)
+
+theorem secStream_piece_sublist {ps : List Piece} {p : Piece} (hp : p ∈ ps) :
+    (secStream p.secs).Sublist (secStream (allSecs ps)) := by
+  have : ∀ qs : List Piece, secStream (allSecs qs) = (qs.map fun p => secStream p.secs).flatten := by
+    intro qs
+    induction qs with
+    | nil => rfl
+    | cons a r ih =>
+      rw [allSecs_cons, secStream_append, ih]; rfl
+  rw [this]
+  exact List.sublist_flatten_of_mem (List.mem_map.mpr ⟨p, hp, rfl⟩)
+
+/-- In a tiling every byte position occurs once, so the data sections of each piece are pairwise
+disjoint (and so are different pieces). -/
+theorem nodup_of_tiles {files : List FileEnt} {pl n L : Nat} {ps : List Piece} (h : TilesFiles files pl n L ps = true) :
+    (secStream (allSecs ps)).Nodup ∧ ∀ p ∈ ps, (dataStream p.secs).Nodup := by
+  simp only [TilesFiles, Bool.and_eq_true, beq_iff_eq] at h
+  have hs : secStream (allSecs ps) = fileStreamFrom 0 files := h.1.1.1.1.2
+  have hnd : (secStream (allSecs ps)).Nodup := by rw [hs]; exact nodup_fileStreamFrom files 0
+  refine ⟨hnd, fun p hp => ?_⟩
+  exact List.Nodup.sublist (List.Sublist.trans (secStream_filter_sublist _ p.secs) (secStream_piece_sublist hp)) hnd
+
+theorem fits_of_storeMatches {files : List FileEnt} {st : Store} (hm : storeMatches files st = true)
+    (secs : List Sec) (hs : ∀ s ∈ secs, secMetaOK files s = true) : fits st secs = true := by
+  unfold storeMatches at hm
+  rw [Bool.and_eq_true, beq_iff_eq, List.all_eq_true] at hm
+  unfold fits
+  rw [List.all_eq_true]
+  intro s hsm
+  have h1 := hs s hsm
+  unfold secMetaOK at h1
+  cases hf : files[s.file]? with
+  | none => simp [hf] at h1
+  | some f =>
+    simp only [hf, Bool.and_eq_true, beq_iff_eq, decide_eq_true_eq] at h1
+    have hlt : s.file < st.length := by
+      rw [← hm.1]
+      rcases Nat.lt_or_ge s.file files.length with h | h
+      · exact h
+      · rw [List.getElem?_eq_none h] at hf; cases hf
+    have he : st[s.file]? = some st[s.file] := List.getElem?_eq_getElem hlt
+    have hz : (files.zip st)[s.file]? = some (f, st[s.file]) := List.getElem?_zip_eq_some.mpr ⟨hf, he⟩
+    have := hm.2 _ (List.mem_of_getElem? hz)
+    simp only at this
+    rw [he]
+    cases hst : st[s.file] with
+    | padding => simp only [hst] at this ⊢; rw [h1.1.1]; exact this
+    | data bs =>
+      simp only [hst, Bool.and_eq_true, Bool.not_eq_true', beq_iff_eq] at this ⊢
+      refine ⟨by rw [h1.1.1]; exact this.1, ?_⟩
+      simp only [decide_eq_true_eq]; omega
+
 end Rain.Geometry
